@@ -12,8 +12,8 @@ abstract tie-break key; scores: BestPEPScore / MultPEPScore.calculate_score on e
 
 Floats.  PEPs cross as exact rationals.  The best-PEP score is compared exactly: the model returns the
 smallest PEP q of the list and this module evaluates `-1 * np.log10(q + np.nextafter(0, 1))` itself (the
-concrete instance of the abstract, strictly antitone `negLog` of the theorems); `extra` checks that this
-float function is strictly antitone on the PEP grid the generator draws from.  The multPEP score is compared
+concrete instance of the abstract, antitone `negLog` of the theorems — on all doubles it is antitone but not
+strictly); `extra` checks that this float function is strictly antitone on the PEP grid the generator draws from.  The multPEP score is compared
 (a) exactly against the same float accumulation replayed over the model's term list (which PEPs enter the
 sum, in which order, how many) and (b) in the oracle against the real-number formula
 Σ -log10(PEP + 2^-1074) + n·log10(div) evaluated with 60-digit decimals, relative tolerance 1e-9 — one of the
